@@ -39,6 +39,11 @@ func runC10(c *Ctx) {
 // c10Wrappers: part == "" checks every wrapper; "Reweight" / "ChangeMapping" only that one (C16 / C17 re-evaluate it
 // under their own rule ids).
 func c10Wrappers(c *Ctx, a *sketchAnchors, rule string, part string) {
+	if part == "Clear" {
+		n := checkWrapper(c, a, wrapperSpec{rule: rule, method: "Clear", inner: "Clear", stat: "Clear"})
+		c.R.floor(rule, "exact-variant Clear wrapper paths", n, 1)
+		return
+	}
 	if part == "Reweight" {
 		n := checkWrapper(c, a, wrapperSpec{rule: rule, method: "Reweight", inner: "Reweight", innerArgs: []func(*Term) bool{isParamN(1)},
 			stat: "Reweight", statArgs: []func(*Term) bool{isParamN(1)}})
